@@ -106,6 +106,21 @@ ALLOWED_COUNTER_WRITERS = {
 }
 
 
+def _store_text(bld, st, keep=('self', 'len', 'isinf', 'sum', 'numpy', 'np', 'True', 'False', 'None')):
+    """the statement with its local names replaced by v0, v1, ... in order of appearance (a renamed temporary does not
+    change the key under which a finding is recorded)"""
+    import copy
+    node = copy.deepcopy(st)
+    names = {}
+    for n in ast.walk(node):
+        if isinstance(n, ast.Name) and n.id not in keep:
+            names.setdefault(n.id, 'v%d' % len(names))
+    for n in ast.walk(node):
+        if isinstance(n, ast.Name) and n.id in names:
+            n.id = names[n.id]
+    return norm_stmt(node)
+
+
 @rule('C04.b', min_instances=6)
 def who_writes_the_counter(ctx):
     """only the wrapper increments the evaluation counter; every rebinding carries the previous count"""
@@ -137,7 +152,7 @@ def who_writes_the_counter(ctx):
                             bld.exec_stmt(s0)
                     gtxt = ' and '.join(('' if tr else 'not ') + T.show(T.simp(bld.t(g)))[:60] for g, tr, _ in reversed(guards_of(st, stop=fi.node)))
                     ctx.bad(construct, 'the evaluation counter is written outside the wrapper that counts calls (%s)%s' % (tgt[0], ' when ' + gtxt if gtxt else ' unconditionally'),
-                            fi, st, statement=('if %s: ' % gtxt if gtxt else '') + norm_stmt(st))
+                            fi, st, statement=('if %s: ' % gtxt if gtxt else '') + _store_text(bld, st))
                     continue
                 if fi.name == '_decorate_objective':
                     # self._fcalls, cost = wrap_function(..., start=<old count>)
